@@ -11,7 +11,7 @@ from geneticengine.grammar.grammar import INF_VALUE, Grammar
 from geneticengine.random.sources import RandomSource
 from geneticengine.solutions.tree import GengyList, LocalSynthesisContext, TreeNode
 from geneticengine.representations.tree.utils import relabel_nodes_of_trees
-from geneticengine.grammar.utils import get_arguments, is_builtin_class_instance, is_generic_tuple
+from geneticengine.grammar.utils import get_arguments, is_abstract, is_builtin_class_instance, is_generic_tuple
 from geneticengine.grammar.utils import is_union, get_generic_parameters
 from geneticengine.grammar.utils import get_generic_parameter
 from geneticengine.grammar.utils import is_generic_list
@@ -315,6 +315,10 @@ def create_node(
                 except SynthesisException:
                     compatible_productions.remove(rule)
             raise SynthesisException(f"Could not find any suitable alternative for {starting_symbol}")
+        elif is_abstract(starting_symbol):
+            # An abstract type none of whose subclasses was given to the grammar: there is nothing to build (an ABC without
+            # abstract methods can be instantiated, which would put a bare instance of the abstract class into the program).
+            raise SynthesisException(f"Abstract symbol {starting_symbol} has no productions in the grammar.")
         else:
             # Normal concrete type (Production)
             args = []
